@@ -29,6 +29,9 @@ func runFE(c feCase, logIssues bool) (*model.SpecOut, *model.Result, reflect.Val
 	env := &model.Env{}
 	schema, typ := model.Build(c.Root, env)
 	exec := model.Exec{Mode: c.Mode, LogIssues: logIssues, Cold: c.Cold}
+	if !c.Cold {
+		processPrelude() // earlier invalid inputs whose issues were handed back, a recovered panic
+	}
 	if c.Mode == "validate" {
 		cs := model.Case{Root: c.Root, Input: c.Logical, Exec: exec}
 		dest := newDest(typ, cs, false)
@@ -290,7 +293,7 @@ func TestC10(t *testing.T) {
 	// issue is built from helper objects that start small and grow during the first deep execution
 	deep := base
 	deep.MaxDepth, deep.MaxFields, deep.MaxElems, deep.PLight = 6, 2, 3, 0.6
-	deep.PTestSat, deep.PAbsent, deep.PJunk = 0.55, 0.1, 0.03
+	deep.PTestSat, deep.PAbsent, deep.PJunk, deep.PLong = 0.55, 0.1, 0.03, 0 // (no long lists: six levels of them would not end)
 	deep.RootKinds, deep.PreferDeep = []string{model.KStruct}, true
 	for _, mode := range []string{"parse", "validate"} {
 		mode := mode
